@@ -285,6 +285,17 @@ func VerifOpaqueKey(tag []byte, private bool) *ExtendedKey {
 
 func (k *ExtendedKey) VerifTag() []byte { return k.key }
 
+// VerifOpaqueKey32: as VerifOpaqueKey, with a 32-byte chain code, so that the real String / NewKeyFromString
+// round-trip applies to it.
+func VerifOpaqueKey32(tag []byte, private bool) *ExtendedKey {
+	return &ExtendedKey{key: tag, chainCode: make([]byte, 32), parentFP: []byte{0, 0, 0, 0}, version: []byte{0, 0, 0, 0}, isPrivate: private}
+}
+
+// VerifIsOpaque: the key is a stub made by VerifOpaqueKey* (or parsed back from the text of one): version zero.
+func (k *ExtendedKey) VerifIsOpaque() bool {
+	return len(k.version) == 4 && k.version[0] == 0 && k.version[1] == 0 && k.version[2] == 0 && k.version[3] == 0
+}
+
 // VerifNeuterStub, when set and the cut "hdNeuter" is active, replaces Neuter (used with VerifChildStub: the real
 // Neuter would replace a path tag by a curve value).
 var VerifNeuterStub func(k *ExtendedKey) (*ExtendedKey, error)
